@@ -152,6 +152,7 @@ func aggCases(r *vu.Rng, o *vu.Out, addrs []string, n int) {
 	window := data_model.MaxShortWindow + data_model.FutureWindow
 	ch := newFakeCH()
 	defer ch.srv.Close()
+	cfgAgents := map[uint32][2]*agent.Agent{}
 	for i := 0; i < n; i++ {
 		switch {
 		case i%10 < 6: // one request through the real handler
@@ -161,22 +162,51 @@ func aggCases(r *vu.Rng, o *vu.Out, addrs []string, n int) {
 			newest := oldest + uint32(window) - 1
 			hw := uint32(r.Pick(2, 5, 30, 86400))
 			historic := r.Bool()
+			// every 4th request: the historic window comes through the real configuration path (remote config metric
+			// -> Agent.updateRemoteConfig) into the aggregator's built-in agent and into an agent's shards
+			viaConfig := i%4 == 1
+			recvAgent := sh2
+			if viaConfig {
+				hw = uint32(r.Pick(172800, 172800, 100000, 90000, 3600, 86400))
+				base = 1700000000 + uint32(r.Intn(1000000))
+				oldest = base + uint32(r.Intn(7))
+				newest = oldest + uint32(window) - 1
+				historic = r.Chance(85)
+				desc := fmt.Sprintf("# verif\n-historic-window=%d", hw)
+				if _, have := cfgAgents[hw]; !have {
+					cfgAgents[hw] = [2]*agent.Agent{makeAgentRemote(addrs, format.TagValueIDComponentAggregator, desc), makeAgentRemote(addrs, format.TagValueIDComponentAgent, desc)}
+				}
+				recvAgent = cfgAgents[hw][0]
+			}
 			var t uint32
-			switch r.Intn(8) {
-			case 0:
-				t = oldest - hw + uint32(r.Intn(7)) - 3 // edge of the historic window
-			case 1:
-				t = newest + uint32(r.Intn(7)) - 3 // edge of the future
-			case 2:
-				t = oldest + uint32(r.Intn(7)) - 3 // edge late / recent
-			case 3:
-				t = r.U32()
-			default:
-				t = oldest + uint32(r.Intn(window+8)) - 4
+			if viaConfig && r.Chance(70) { // ages between the default 24 h and the configured window, and around its edge
+				switch r.Intn(3) {
+				case 0:
+					t = oldest - 86400 - uint32(r.Intn(int(hw)+1-86400+1000))
+				case 1:
+					t = oldest - hw + uint32(r.Intn(9)) - 4
+				default:
+					t = oldest - uint32(r.Intn(int(hw)+10))
+				}
+			} else {
+				switch r.Intn(8) {
+				case 0:
+					t = oldest - hw + uint32(r.Intn(7)) - 3 // edge of the historic window
+				case 1:
+					t = newest + uint32(r.Intn(7)) - 3 // edge of the future
+				case 2:
+					t = oldest + uint32(r.Intn(7)) - 3 // edge late / recent
+				case 3:
+					t = r.U32()
+				default:
+					t = oldest + uint32(r.Intn(window+8)) - 4
+				}
 			}
 			dec, shardOK, old, deny, down := !r.Chance(6), !r.Chance(8), r.Chance(10), r.Chance(70), r.Chance(6)
-			agent.VerifSetHistoricWindow(sh2, hw)
-			va := aggregator.NewVerifAgg(sh2, 1, rk, false, deny, data_model.MaxShortWindow, "", oldest, window)
+			if !viaConfig {
+				agent.VerifSetHistoricWindow(sh2, hw)
+			}
+			va := aggregator.NewVerifAgg(recvAgent, 1, rk, false, deny, data_model.MaxShortWindow, "", oldest, window)
 			if down {
 				va.Shutdown()
 			}
@@ -219,7 +249,22 @@ func aggCases(r *vu.Rng, o *vu.Out, addrs []string, n int) {
 			term := fmt.Sprintf("CRecv %d %d %s %d%%nat %s %s %d %s %s %s %s %s %s", base, rk, rel(base, oldest), window, vu.B(historic), rel(base, t), hw,
 				vu.B(dec), vu.B(shardOK), vu.B(old), vu.B(deny), vu.B(down), ob)
 			filed := strings.HasPrefix(ob, "(GR")
-			line := o.Case(input, term, filed || ob == "GRKeep", "recv/"+strings.Trim(strings.Fields(ob)[0], "("))
+			kind := "recv/"
+			if viaConfig {
+				kind = "recv-remote-config/"
+				input = fmt.Sprintf("%s | historic window %d configured through the remote config metric: aggregator's built-in agent uses %d, agent shards use %d",
+					input, hw, recvAgent.HistoricWindow(), agent.VerifShardHistoricWindow(cfgAgents[hw][1]))
+			}
+			line := o.Case(input, term, filed || ob == "GRKeep", kind+strings.Trim(strings.Fields(ob)[0], "("))
+			if viaConfig {
+				if recvAgent.HistoricWindow() != hw || agent.VerifShardHistoricWindow(cfgAgents[hw][1]) != hw || cfgAgents[hw][1].HistoricWindow() != hw {
+					o.Fail("configured_window_not_applied", line, input)
+				}
+				rounded0 := roundUp(t, rk)
+				if ob == "GRDiscard" && historic && dec && shardOK && !(deny && old) && !down && rounded0 <= newest && !(oldest >= hw && rounded0 < oldest-hw) {
+					o.Fail("rejected_although_inside_configured_window", line, input)
+				}
+			}
 			// oracles: the property's list of deliberate rejections, computed here from the inputs
 			rounded := roundUp(t, rk)
 			future := rounded > newest
